@@ -3,6 +3,7 @@ import VermouthModel.C03_Text
 import VermouthModel.C03_Top
 import VermouthModel.C03_Sort
 import VermouthModel.C03_Hist
+import VermouthModel.C03_Cli
 import Generated.C16Layout
 import Generated.C02Tables
 open Proto C03
@@ -188,6 +189,21 @@ def encHeapOut : Option (TopOut MName) → String
       ++ " includes " ++ encList (o.includes.map encMName)
       ++ " src " ++ encList (o.itps.map fun g => encList [encMName g.1, encNat g.2])
 
+/-! ### martinize2's steps (C03_Cli): request  clisteps [ mol* ] [ step* ]
+    step := [ 0 dedup ] (NameMolType) | [ 1 [ mol* ] ] (an editing processor: the molecules as it left them)
+          | [ 2 mol ] (MergeAllMolecules: the merged molecule);   response: [ name-id | - ... ] -/
+
+def stepOf (t : Tok) : Option Step := do
+  match ← t.list? with
+  | [Tok.int 0, d] => pure (Step.name ((← d.nat?) != 0))
+  | [Tok.int 1, ms] =>
+      let mols ← (← ms.list?).mapM molOf
+      pure (Step.edit fun i m => mols.getD i m)
+  | [Tok.int 2, m] =>
+      let mol ← molOf m
+      pure (Step.mergeAll fun _ => mol)
+  | _ => none
+
 def handle (_ : Unit) (toks : List Tok) : Unit × String :=
   let r : Option String :=
     match toks with
@@ -239,6 +255,11 @@ def handle (_ : Unit) (toks : List Tok) : Unit × String :=
           | some k => encList (r.map fun a => encVal (getAttr a k))
           | none => "-"
         pure (encBool (comparable attrs nodes) ++ " " ++ encList (r.map fun a => encInt a.key) ++ " " ++ tv)
+    | [Tok.str "clisteps", ms, ss] => do
+        let mols ← (← ms.list?).mapM molOf
+        let steps ← (← ss.list?).mapM stepOf
+        let fin := runSteps (shareMolType npClose) (initState mols) steps
+        pure (encList (fin.map fun p => match p.2 with | some g => encNat g | none => "-"))
     | [Tok.str "heap", ms, es] => do
         let mols ← (← ms.list?).mapM molOf
         let evs ← (← es.list?).mapM evOf
